@@ -16,8 +16,9 @@ Expression level (E1)
   x[0:n]                   -> x[:n]
   range(0, n)              -> range(n)
   f(a, b) on a callee of the package -> f(p=a, q=b)         (bound through the callee's own parameter list)
+Signature: annotations dropped; a trailing parameter with a constant default that the body never reads is dropped.
 Statement level (S)
-  pass dropped; else: pass dropped; return None -> return
+  `name = <constant>` dropped when the name is never read; pass dropped; else: pass dropped; return None -> return
   if not c: A else: B      -> if c: B else: A              (also: if a != b / is not / not in ... else -> the positive test)
   if c: ...<return|raise|continue|break> else: B   -> if c: ...; B      (else after a terminal branch)
   if a: (only) if b: X     -> if a and b: X
@@ -361,10 +362,46 @@ class _E2(ast.NodeTransformer):
         return n
 
 
+def _strip_signature(c):
+    """Annotations carry no behaviour; a trailing parameter with a default that the body never reads does not either."""
+    c.returns = None
+    for a in c.args.posonlyargs + c.args.args + c.args.kwonlyargs + ([c.args.vararg] if c.args.vararg else []) + ([c.args.kwarg] if c.args.kwarg else []):
+        a.annotation = None
+    used = {x.id for st in c.body for x in ast.walk(st) if isinstance(x, ast.Name)}
+    while c.args.args and c.args.defaults and c.args.args[-1].arg not in used and len(c.args.defaults) >= 1 \
+            and isinstance(c.args.defaults[-1], ast.Constant) and c.args.kwarg is None and c.args.vararg is None and not c.args.kwonlyargs:
+        c.args.args.pop()
+        c.args.defaults.pop()
+    for st in ast.walk(c):
+        if isinstance(st, ast.AnnAssign) and st.value is not None and st.simple:
+            pass
+    return c
+
+
+def _dead_constant_stores(fn):
+    """`_dbg = 0` where the name is never read anywhere in the function: no effect."""
+    reads = {x.id for x in ast.walk(fn) if isinstance(x, ast.Name) and isinstance(x.ctx, ast.Load)}
+    glob = {x for n in ast.walk(fn) if isinstance(n, (ast.Global, ast.Nonlocal)) for x in n.names}
+    changed = False
+    for n in ast.walk(fn):
+        for fld in ('body', 'orelse', 'finalbody'):
+            v = getattr(n, fld, None)
+            if isinstance(v, list) and v and isinstance(v[0], ast.stmt) and not isinstance(n, ast.Lambda):
+                kept = [st for st in v if not (isinstance(st, ast.Assign) and len(st.targets) == 1 and isinstance(st.targets[0], ast.Name)
+                                               and st.targets[0].id not in reads and st.targets[0].id not in glob
+                                               and isinstance(st.value, ast.Constant))]
+                if len(kept) != len(v):
+                    setattr(n, fld, kept or [ast.Pass()])
+                    changed = True
+    return changed
+
+
 def normal_form(fn, callee_info=None):
     """A normalised private copy of the function definition node fn."""
     c = clone(fn)
     c.decorator_list = list(c.decorator_list)
+    _strip_signature(c)
+    _dead_constant_stores(c)
     if c.body and isinstance(c.body[0], ast.Expr) and isinstance(c.body[0].value, ast.Constant) and isinstance(c.body[0].value.value, str):
         # indentation of a docstring is not content
         c.body[0].value.value = '\n'.join(l.strip() for l in c.body[0].value.value.strip().split('\n'))
